@@ -163,6 +163,7 @@ class ExecMixin(object):
                         self.safe(ctx, st2, z3.And(i >= -n, i < n), 'IndexError', 'list assignment index')
                         j = z3.If(i < 0, i + n, i)
                         v = self.coerce(val, t.elem)
+                        self.elem_store_check(ctx, st2, t.elem, v)
                         old = z3.Select(self.list_arr(st2, obj), j)
                         self.list_set_raw(st2, obj, n, z3.Store(self.list_arr(st2, obj), z3.simplify(j), v.z))
                         if t.elem == INT:
@@ -177,6 +178,19 @@ class ExecMixin(object):
                     outs.append(st2)
             return outs
         if isinstance(target, (ast.Tuple, ast.List)):
+            if isinstance(val.ty, ListT):
+                # unpacking a list: Python raises ValueError unless the lengths agree
+                n = self.list_len(st, val)
+                self.safe(ctx, st, n == len(target.elts), 'ValueError', 'unpack list of wrong length')
+                arr = self.list_arr(st, val)
+                items = [SV(val.ty.elem, z3.Select(arr, I(k))) for k in range(len(target.elts))]
+                states = [st]
+                for t, v in zip(target.elts, items):
+                    nxt = []
+                    for s0 in states:
+                        nxt.extend(self.assign(t, v, s0, ctx))
+                    states = nxt
+                return states
             items = self.tuple_items(val) if isinstance(val.ty, TupleT) else None
             if items is None or len(items) != len(target.elts):
                 raise Unsupported('unpacking of %r' % (val.ty,))
@@ -732,6 +746,7 @@ class ExecMixin(object):
         st.assume(n_now == st.locals[s.iv + 'n'].z)
         z = z3.Select(self.list_arr(st, seq), i)
         self.ref_fact(st, seq.ty.elem, z)
+        self.elem_fact(st, seq.ty.elem, z)
         item = SV(seq.ty.elem, z)
         if isinstance(seq.ty.elem, Ref):
             self.type_fact(st, item)
